@@ -274,49 +274,58 @@ def limbDigits : Nat → Nat → List Nat
 /-- number of decimal digits of the most significant limb, at least one -/
 def countDigits (n : Nat) : Nat := (decDigits n).length
 
+/-- the work array of to_digits after the 53-bit integer fraction `m·2^(53-bitLen m)` has been stored
+    (`*(msd--) = fraction % BBASE`), with `lsd` on its least significant non-zero limb -/
+def digInit (m : Nat) : Arr :=
+  let fl := (limbsOfNat 8 (m * pow2 (53 - bitLen m))).reverse
+  let ds0 := List.replicate (UNITS_DIGIT + 1 - fl.length) 0 ++ fl ++ List.replicate (DIG_PER_DBL - UNITS_DIGIT) 0
+  { digits := ds0, msd := UNITS_DIGIT + 1 - fl.length, lsd := skipDown (DIG_PER_DBL + 1) ds0 UNITS_DIGIT }
+
+/-- the binary exponent that goes with the integer fraction (frexp/ldexp are exact) -/
+def digExp (m : Nat) (e : Int) : Int := e - ((53 - bitLen m : Nat) : Int)
+
+/-- "apply the binary exponent" -/
+def digShift (m : Nat) (e : Int) : Option Arr :=
+  if digExp m e < 0 then digShr 64 (digInit m) (-(digExp m e)).toNat else digShl 64 (digInit m) (digExp m e).toNat
+
+/-- rounding at the scale, carry propagation, digit generation -/
+def digFinish (A : Arr) (scale : Int) : Option (List Nat) :=
+  -- round_digit = UNITS_DIGIT + (scale <= 0 ? -((-scale) / 9) : (scale + 8) / 9)
+  let rd : Int := if scale ≤ 0 then (UNITS_DIGIT : Int) - (((-scale).toNat / DDIG_PER_DIG : Nat) : Int)
+                  else (UNITS_DIGIT : Int) + (((scale.toNat + DDIG_PER_DIG - 1) / DDIG_PER_DIG : Nat) : Int)
+  if rd < 0 ∨ (DIG_PER_DBL : Int) ≤ rd then none        -- outside what cif_value_init_numb admits
+  else
+    let r := rd.toNat
+    let roundPos : Nat := ((-scale) % (DDIG_PER_DIG : Int)).toNat
+    let p10 := pow10 roundPos
+    let cur := A.digits.getD r 0
+    -- capture the first few insignificant digits, and clear them from the result if necessary
+    let checkValue := if roundPos = 0 then A.digits.getD (r + 1) 0 else (cur % p10) * (BBASE / p10)
+    let checkIdx := if roundPos = 0 then r + 1 else r
+    let cleared := if roundPos = 0 then A.digits else A.digits.set r (cur - cur % p10)
+    let rounded := p10 * roundIt cleared (cleared.getD r 0 / p10) checkValue checkIdx A.lsd
+    let ds1 := cleared.set r rounded
+    -- lsd = digits + round_digit
+    let res : List Nat × Nat × Nat :=      -- (digits, msd, p10 used for truncation)
+      if r < A.msd then (ds1, r, 1)
+      else
+        let c := carryLoop (DIG_PER_DBL + 1) ds1 r
+        (c.1, (if c.2 < A.msd then c.2 else A.msd), p10)
+    let ds2 := res.1
+    let msd := res.2.1
+    let first := limbDigits (countDigits (ds2.getD msd 0)) (ds2.getD msd 0)
+    let others := ((ds2.drop (msd + 1)).take (r - msd)).flatMap (limbDigits DDIG_PER_DIG)
+    let all := first ++ others
+    -- truncate the digit string after the last significant digit: log10(p10) characters, but not more than there are
+    let cut := if res.2.2 = 1 then 0 else roundPos
+    some (all.take (all.length - cut))
+
 /-- `to_digits(d, scale)` for `|d| = m·2^e` at the limb level (default rounding mode) -/
 def toDigitsLimbs (m : Nat) (e : Int) (scale : Int) : Option (List Nat) :=
   if m = 0 then some [0]
   else
-    -- the 53-bit integer fraction and its binary exponent (frexp/ldexp are exact)
-    let b := bitLen m
-    let fraction := m * pow2 (53 - b)
-    let exponent : Int := e - ((53 - b : Nat) : Int)
-    let fl := (limbsOfNat 8 fraction).reverse
-    let ds0 := List.replicate (UNITS_DIGIT + 1 - fl.length) 0 ++ fl ++ List.replicate (DIG_PER_DBL - UNITS_DIGIT) 0
-    let A0 : Arr := { digits := ds0, msd := UNITS_DIGIT + 1 - fl.length, lsd := skipDown (DIG_PER_DBL + 1) ds0 UNITS_DIGIT }
-    let shifted := if exponent < 0 then digShr 64 A0 (-exponent).toNat else digShl 64 A0 exponent.toNat
-    match shifted with
+    match digShift m e with
     | none => none
-    | some A =>
-      -- round_digit = UNITS_DIGIT + (scale <= 0 ? -((-scale) / 9) : (scale + 8) / 9)
-      let rd : Int := if scale ≤ 0 then (UNITS_DIGIT : Int) - (((-scale).toNat / DDIG_PER_DIG : Nat) : Int)
-                      else (UNITS_DIGIT : Int) + (((scale.toNat + DDIG_PER_DIG - 1) / DDIG_PER_DIG : Nat) : Int)
-      if rd < 0 ∨ (DIG_PER_DBL : Int) ≤ rd then none        -- outside what cif_value_init_numb admits
-      else
-        let r := rd.toNat
-        let roundPos : Nat := ((-scale) % (DDIG_PER_DIG : Int)).toNat
-        let p10 := pow10 roundPos
-        let cur := A.digits.getD r 0
-        -- capture the first few insignificant digits, and clear them from the result if necessary
-        let checkValue := if roundPos = 0 then A.digits.getD (r + 1) 0 else (cur % p10) * (BBASE / p10)
-        let checkIdx := if roundPos = 0 then r + 1 else r
-        let cleared := if roundPos = 0 then A.digits else A.digits.set r (cur - cur % p10)
-        let rounded := p10 * roundIt cleared (cleared.getD r 0 / p10) checkValue checkIdx A.lsd
-        let ds1 := cleared.set r rounded
-        -- lsd = digits + round_digit
-        let res : List Nat × Nat × Nat :=      -- (digits, msd, p10 used for truncation)
-          if r < A.msd then (ds1, r, 1)
-          else
-            let c := carryLoop (DIG_PER_DBL + 1) ds1 r
-            (c.1, (if c.2 < A.msd then c.2 else A.msd), p10)
-        let ds2 := res.1
-        let msd := res.2.1
-        let first := limbDigits (countDigits (ds2.getD msd 0)) (ds2.getD msd 0)
-        let others := ((ds2.drop (msd + 1)).take (r - msd)).flatMap (limbDigits DDIG_PER_DIG)
-        let all := first ++ others
-        -- truncate the digit string after the last significant digit: log10(p10) characters, but not more than there are
-        let cut := if res.2.2 = 1 then 0 else roundPos
-        some (all.take (all.length - cut))
+    | some A => digFinish A scale
 
 end CifModel.Model.NumbLimbs
